@@ -62,6 +62,16 @@ Global Opaque w_SETEVENTS_SC w_TAKEOWNERSHIP w_RESETCONF w_SETEVENTS w_TERM LIST
 
 Definition is_ok (r : res) : bool := match r with ROk => true | RFail _ => false end.
 
+Definition held (who : option N) : bool := match who with None => true | Some _ => false end.
+
+(* the config attach: model state a (with who is notified: nt) against the reference's counter n and
+   "launch() result held back" flag w *)
+Definition att_ok (nt : option res) (a : astate) (n : N) (w : bool) : Prop :=
+  match a with
+  | ARun n' who => n = n' /\ n' <> 0 /\ w = held who /\ (who = None -> nt = Some ROk)
+  | _ => n = 0 /\ w = false
+  end.
+
 Definition crel (k : conn) (q : sconn) : Prop :=
   k_evon k = q_evon q /\
   (q_evon q = true -> q_auth q = true /\ q_own q = true /\ k_lreg k = true) /\
@@ -70,6 +80,7 @@ Definition crel (k : conn) (q : sconn) : Prop :=
   | SEv => q_fifo q = [w_SETEVENTS_SC] /\ q_auth q = true /\ k_lreg k = true /\ q_evon q = false
   | SOwn => q_fifo q = [w_TAKEOWNERSHIP] /\ q_evon q = true
   | SReset => q_fifo q = [w_RESETCONF] /\ q_evon q = true
+  | SAttach => q_fifo q = []
   | SIdle => q_fifo q = []
   end.
 
@@ -87,7 +98,8 @@ Record Rel (cf : cfg) (m : mst) (s : sst) : Prop := {
             | TCleared => notified m <> None
             end;
   L_exitnot : exited m = true -> notified m <> None;
-  L_acc : s_tried s = false -> attempted m = false /\ collected m = s_acc s
+  L_acc : s_tried s = false -> attempted m = false /\ collected m = s_acc s;
+  L_att : att_ok (notified m) (catt m) (s_att s) (s_wait0 s)
 }.
 
 Lemma Rel_init cf : Rel cf (m0 cf) (s0 cf).
@@ -114,9 +126,29 @@ Lemma dirs_fired ws r : dirs (map (fun w => EFired w r) ws) = [].
 Proof. induction ws as [|w ws IH]; [reflexivity|]. cbn. exact IH. Qed.
 Lemma nconn_fired ws r : n_connecting (map (fun w => EFired w r) ws) = O.
 Proof. induction ws as [|w ws IH]; [reflexivity|]. cbn. exact IH. Qed.
-Lemma absorb_fired s ws r : absorb s (map (fun w => EFired w r) ws) = s.
-Proof. unfold absorb. induction ws as [|w ws IH]; [reflexivity|]. cbn. exact IH. Qed.
-Lemma absorb_app s a b : absorb s (a ++ b) = absorb (absorb s a) b.
+(* the reference state with the attach counter / "result held back" flag replaced *)
+Definition satt (s : sst) (n : N) (w : bool) : sst :=
+  {| s_conns := s_conns s; s_npend := s_npend s; s_decided := s_decided s; s_waiting := s_waiting s;
+     s_exited := s_exited s; s_timer := s_timer s; s_gone := s_gone s; s_acc := s_acc s; s_tried := s_tried s;
+     s_att := n; s_wait0 := w |}.
+Lemma satt_id s : satt s (s_att s) (s_wait0 s) = s.
+Proof. destruct s; reflexivity. Qed.
+Lemma satt_satt s n w n' w' : satt (satt s n w) n' w' = satt s n' w'.
+Proof. reflexivity. Qed.
+
+Lemma absorb_fired_all cf s ws r :
+  absorb cf s (map (fun w => EFired w r) ws) = if memN 0 ws then satt s (s_att s) false else s.
+Proof.
+  unfold absorb, memN. revert s. induction ws as [|w ws IH]; intros s; [reflexivity|]. cbn [map fold_left absorb1 existsb].
+  rewrite IH. rewrite (N.eqb_sym 0 w). destruct (w =? 0); cbn [orb]; destruct (existsb (N.eqb 0) ws); reflexivity.
+Qed.
+(* nobody is held back: the firings leave the reference state alone *)
+Lemma absorb_fired cf s ws r : s_wait0 s = false -> absorb cf s (map (fun w => EFired w r) ws) = s.
+Proof.
+  intros W. rewrite absorb_fired_all. destruct (memN 0 ws); [|reflexivity].
+  rewrite <- W. apply satt_id.
+Qed.
+Lemma absorb_app cf s a b : absorb cf s (a ++ b) = absorb cf (absorb cf s a) b.
 Proof. unfold absorb. apply fold_left_app. Qed.
 
 Lemma all_fire_self ws b r : NoDup ws -> res_is b r = true ->
@@ -234,15 +266,15 @@ Proof.
     + unfold spec_step. cbn. rewrite <- Np. cbn. destruct HR. relsolve.
 Qed.
 
-Lemma good_when cf m s w : Rel cf m s -> good cf m s (OWhen w).
+Lemma good_when cf m s w : Rel cf m s -> w <> 0 -> good cf m s (OWhen w).
 Proof.
-  intros HR. unfold good, op_chunk. cbn [step]. pose proof (L_dec _ _ _ HR) as Dc.
+  intros HR W0. apply N.eqb_neq in W0. unfold good, op_chunk. cbn [step]. pose proof (L_dec _ _ _ HR) as Dc.
   destruct (notified m) as [r|] eqn:Nt; cbn in Dc.
   - split.
     + unfold chunk_ok. cbn. rewrite Dc. cbn. rewrite N.eqb_refl. cbn.
       assert (res_is (is_ok r) r = true) as -> by (destruct r; reflexivity).
       rewrite !andb_true_r. dirgoal HR.
-    + unfold spec_step. cbn. rewrite Dc. cbn. exact HR.
+    + unfold spec_step. cbn. rewrite Dc. cbn. rewrite W0. exact HR.
   - split.
     + unfold chunk_ok. cbn. rewrite Dc. cbn. rewrite !andb_true_r. dirgoal HR.
     + unfold spec_step. cbn. rewrite Dc. cbn. destruct HR. relsolve.
@@ -312,13 +344,18 @@ Proof.
   eapply Forall2_set_nth_r; eauto.
 Qed.
 
-Lemma absorb1_sent s c q cmd : nthc s c = Some q ->
-  absorb1 s (ESent c cmd) =
+Lemma absorb1_sent cf s c q cmd : nthc s c = Some q ->
+  absorb1 cf s (ESent c cmd) =
   upd_conn s c {| q_auth := q_auth q; q_own := q_own q || beqb cmd w_TAKEOWNERSHIP; q_evon := q_evon q;
                   q_fifo := q_fifo q ++ [cmd] |}.
 Proof. intros H. unfold absorb1. rewrite H. reflexivity. Qed.
 
-Lemma absorb1_dir s b : absorb1 s (EDir b) = s. Proof. reflexivity. Qed.
+Lemma absorb1_dir cf s b : absorb1 cf s (EDir b) = s. Proof. reflexivity. Qed.
+Lemma absorb1_attach cf s c : absorb1 cf s (EAttach c) = satt s (c_attach cf) (s_wait0 s). Proof. reflexivity. Qed.
+
+(* the config's side changes on both sides *)
+Lemma Rel_satt cf m s a n w : Rel cf m s -> att_ok (notified m) a n w -> Rel cf (set_catt m a) (satt s n w).
+Proof. intros HR A. destruct HR. constructor; cbn; auto. Qed.
 
 Lemma gone_putc m c k : gone (putc m c k) = gone m. Proof. reflexivity. Qed.
 Lemma gone_failed m c k : gone (coroutine_failed m c k) = gone m. Proof. reflexivity. Qed.
@@ -343,11 +380,13 @@ Proof.
      [ unfold chunk_ok; cbn; rewrite ?Nq; cbn; rewrite !andb_true_r; apply dir_ok; exact Hg
      | unfold spec_step; cbn [op_effect]; rewrite Nq; cbn [app absorb fold_left]; rewrite ?absorb1_dir ]).
   - (* SBoot, ok: the listener is registered and SETEVENTS sent *)
-    rewrite (absorb1_sent _ _ _ _ (nthc_upd _ _ _ _ Nq)), upd_upd. cbn [q_auth q_own q_evon q_fifo].
+    rewrite (absorb1_sent _ _ _ _ _ (nthc_upd _ _ _ _ Nq)), upd_upd. cbn [q_auth q_own q_evon q_fifo].
     change (putc m c ?k') with (set_attempted (putc m c k') (attempted m)).
     apply Rel_upd; [exact HR| |left; reflexivity]. crel_solve CB St.
   - (* SBoot, failed *)
     unfold coroutine_failed. eapply Rel_putc; [exact HR|exact Nq| |right; reflexivity]. crel_solve CB St.
+  - eapply Rel_upd_spec; [exact HR|exact G|]; crel_solve CB St.
+  - exact HR.
   - eapply Rel_upd_spec; [exact HR|exact G|]; crel_solve CB St.
   - exact HR.
   - eapply Rel_upd_spec; [exact HR|exact G|]; crel_solve CB St.
@@ -380,7 +419,7 @@ Proof.
        [ unfold chunk_ok; cbn; rewrite ?Nq; cbn; rewrite !andb_true_r; apply dir_ok; exact Hg
        | unfold spec_step; cbn [op_effect]; rewrite Nq; cbn [q_fifo q_auth q_own q_evon app absorb fold_left];
          rewrite ?absorb1_dir ]).
-    + rewrite (absorb1_sent _ _ _ _ (nthc_upd _ _ _ _ Nq)), upd_upd. cbn [q_auth q_own q_evon q_fifo].
+    + rewrite (absorb1_sent _ _ _ _ _ (nthc_upd _ _ _ _ Nq)), upd_upd. cbn [q_auth q_own q_evon q_fifo].
       change (putc m c ?k') with (set_attempted (putc m c k') (attempted m)).
       apply Rel_upd; [exact HR| |left; reflexivity]. crel_solve CB St.
     + unfold coroutine_failed. apply Rel_upd; [exact HR| |right; reflexivity]. crel_solve CB St.
@@ -391,20 +430,56 @@ Proof.
        [ unfold chunk_ok; cbn; rewrite ?Nq; cbn; rewrite !andb_true_r; apply dir_ok; exact Hg
        | unfold spec_step; cbn [op_effect]; rewrite Nq; cbn [q_fifo q_auth q_own q_evon app absorb fold_left];
          rewrite ?absorb1_dir ]).
-    + rewrite (absorb1_sent _ _ _ _ (nthc_upd _ _ _ _ Nq)), upd_upd. cbn [q_auth q_own q_evon q_fifo].
+    + rewrite (absorb1_sent _ _ _ _ _ (nthc_upd _ _ _ _ Nq)), upd_upd. cbn [q_auth q_own q_evon q_fifo].
       change (putc m c ?k') with (set_attempted (putc m c k') (attempted m)).
       apply Rel_upd; [exact HR| |left; reflexivity]. crel_solve CB St.
     + unfold coroutine_failed. apply Rel_upd; [exact HR| |right; reflexivity]. crel_solve CB St.
-  - (* RESETCONF answered *)
+  - (* RESETCONF answered: the config is attached if nobody did it yet *)
     assert (qf = [w_RESETCONF]) by (unfold crel in CB; rewrite St in CB; cbn in CB; tauto). subst qf.
-    destruct ok;
-      (split;
+    pose proof (L_att _ _ _ HR) as At.
+    destruct ok.
+    2:{ split;
        [ unfold chunk_ok; cbn; rewrite ?Nq; cbn; rewrite !andb_true_r; apply dir_ok; exact Hg
        | unfold spec_step; cbn [op_effect]; rewrite Nq; cbn [q_fifo q_auth q_own q_evon app absorb fold_left];
-         rewrite ?absorb1_dir ]).
-    + change (putc m c ?k') with (set_attempted (putc m c k') (attempted m)).
-      apply Rel_upd; [exact HR| |left; reflexivity]. crel_solve CB St.
-    + unfold coroutine_failed. apply Rel_upd; [exact HR| |right; reflexivity]. crel_solve CB St.
+         rewrite ?absorb1_dir ].
+       unfold coroutine_failed. apply Rel_upd; [exact HR| |right; reflexivity]. crel_solve CB St. }
+    assert (Idle : Rel cf (set_attempted (putc m c {| k_stage := SIdle; k_lreg := k_lreg k; k_evon := k_evon k |}) (attempted m))
+                          (upd_conn s c {| q_auth := qa; q_own := qo; q_evon := qe || (true && prefixb w_SETEVENTS w_RESETCONF); q_fifo := [] |})).
+    { apply Rel_upd; [exact HR| |left; reflexivity]. crel_solve CB St. }
+    assert (Att : Rel cf (set_attempted (putc m c {| k_stage := SAttach; k_lreg := k_lreg k; k_evon := k_evon k |}) (attempted m))
+                         (upd_conn s c {| q_auth := qa; q_own := qo; q_evon := qe || (true && prefixb w_SETEVENTS w_RESETCONF); q_fifo := [] |})).
+    { apply Rel_upd; [exact HR| |left; reflexivity]. crel_solve CB St. }
+    destruct (catt m) as [|n who|] eqn:Ca.
+    + (* config.protocol is None: attach_protocol(proto) *)
+      destruct (c_attach cf =? 0) eqn:A0.
+      * split;
+          [ unfold chunk_ok; cbn; rewrite ?Nq; cbn; rewrite !andb_true_r; apply dir_ok; exact Hg
+          | unfold spec_step; cbn [op_effect]; rewrite Nq; cbn [q_fifo q_auth q_own q_evon app absorb fold_left];
+            rewrite ?absorb1_dir, absorb1_attach ].
+        apply N.eqb_eq in A0. rewrite A0.
+        apply (Rel_satt _ _ _ ADone 0 _ Idle). cbn. split; [reflexivity|]. cbn in At. apply At.
+      * split;
+          [ unfold chunk_ok; cbn; rewrite ?Nq; cbn; rewrite !andb_true_r; apply dir_ok; exact Hg
+          | unfold spec_step; cbn [op_effect]; rewrite Nq; cbn [q_fifo q_auth q_own q_evon app absorb fold_left];
+            rewrite ?absorb1_dir, absorb1_attach ].
+        apply N.eqb_neq in A0.
+        apply (Rel_satt _ _ _ (ARun (c_attach cf) (Some c)) _ _ Att). cbn. repeat split; auto; try discriminate.
+        cbn in At. apply At.
+    + split;
+        [ unfold chunk_ok; cbn; rewrite ?Nq; cbn; rewrite !andb_true_r; apply dir_ok; exact Hg
+        | unfold spec_step; cbn [op_effect]; rewrite Nq; cbn [q_fifo q_auth q_own q_evon app absorb fold_left];
+          rewrite ?absorb1_dir ].
+      exact Idle.
+    + split;
+        [ unfold chunk_ok; cbn; rewrite ?Nq; cbn; rewrite !andb_true_r; apply dir_ok; exact Hg
+        | unfold spec_step; cbn [op_effect]; rewrite Nq; cbn [q_fifo q_auth q_own q_evon app absorb fold_left];
+          rewrite ?absorb1_dir ].
+      exact Idle.
+  - (* attaching: nothing outstanding on the connection *)
+    assert (qf = []) by (unfold crel in CB; rewrite St in CB; cbn in CB; tauto). subst qf.
+    split.
+    + unfold chunk_ok. cbn. rewrite Nq. cbn. rewrite !andb_true_r. apply dir_ok. exact Hg.
+    + unfold spec_step. cbn [op_effect]. rewrite Nq. cbn. exact HR.
   - assert (qf = []) by (unfold crel in CB; rewrite St in CB; cbn in CB; tauto). subst qf.
     split.
     + unfold chunk_ok. cbn. rewrite Nq. cbn. rewrite !andb_true_r. apply dir_ok. exact Hg.
@@ -415,8 +490,125 @@ Qed.
 Lemma is_ok_fail r : r <> ROk -> is_ok r = false.
 Proof. destruct r; [congruence|reflexivity]. Qed.
 
-Lemma s_gone_if (b : bool) s x : s_gone (if b then decide s x else s) = s_gone s.
-Proof. destruct b; [|reflexivity]. unfold decide. destruct (s_decided s); reflexivity. Qed.
+Lemma s_gone_if (b : bool) s : s_gone (if b then decide_ok s else s) = s_gone s.
+Proof. destruct b; [|reflexivity]. unfold decide_ok. destruct (s_decided s); reflexivity. Qed.
+
+(* the chunk of a 100% report: EProgress, what the notification emits, the directory *)
+Lemma fires_wrap p l b : fires ((EProgress p :: l) ++ [EDir b]) = fires l.
+Proof. rewrite fires_app. cbn. apply app_nil_r. Qed.
+Lemma signals_wrap p l b : signals ((EProgress p :: l) ++ [EDir b]) = signals l.
+Proof. rewrite signals_app. cbn. apply app_nil_r. Qed.
+Lemma dirs_wrap p l b : dirs ((EProgress p :: l) ++ [EDir b]) = dirs l ++ [b].
+Proof. rewrite dirs_app. reflexivity. Qed.
+Lemma nconn_wrap p l b : n_connecting ((EProgress p :: l) ++ [EDir b]) = n_connecting l.
+Proof. rewrite nconn_app. cbn. apply Nat.add_0_r. Qed.
+Lemma absorb_wrap cf s p l b : absorb cf s ((EProgress p :: l) ++ [EDir b]) = absorb cf s l.
+Proof. rewrite absorb_app. reflexivity. Qed.
+
+Lemma memN_drop0 ws : memN 0 (drop0 ws) = false.
+Proof.
+  unfold memN, drop0. induction ws as [|w ws IH]; [reflexivity|]. cbn [filter].
+  destruct (w =? 0) eqn:E; cbn [negb]; [exact IH|]. cbn [existsb]. rewrite IH, N.eqb_sym, E. reflexivity.
+Qed.
+
+(* what launch() does when the Deferred of its own when_connected() call fires with success *)
+Definition resumed (cf : cfg) (m : mst) (a : astate) (pre : list obs) (hd : bool) : Prop :=
+  (a = catt m /\ pre = [] /\ hd = false) \/
+  (catt m = ANone /\ memN 0 (waiters m) = true /\ exists c, pre = [EAttach c] /\
+     (((c_attach cf =? 0) = true /\ a = ADone /\ hd = false) \/
+      ((c_attach cf =? 0) = false /\ a = ARun (c_attach cf) None /\ hd = true))).
+
+Lemma resumes_cases cf m :
+  let '(a, pre, hd) := (if memN 0 (waiters m) then launch_resumes cf m else (catt m, [], false)) in
+  resumed cf m a pre hd.
+Proof.
+  unfold resumed. destruct (memN 0 (waiters m)) eqn:M; [|left; auto].
+  unfold launch_resumes. destruct (catt m) eqn:Ca; try (left; auto; fail).
+  destruct (lastc m) as [c|]; [|left; auto].
+  destruct (c_attach cf =? 0) eqn:A0; right; repeat split; auto; exists c; split; auto.
+Qed.
+
+Lemma Rel_nowait cf m s : Rel cf m s -> notified m = None -> s_wait0 s = false.
+Proof.
+  intros HR Nt. pose proof (L_att _ _ _ HR) as At. unfold att_ok in At. destruct (catt m) as [|n who|]; try apply At.
+  destruct At as (_ & _ & W & X). rewrite W. destruct who; [reflexivity|]. rewrite X in Nt; [discriminate|reflexivity].
+Qed.
+
+(* 100% on a fully bootstrapped connection while undecided: everybody is told; the launch() result
+   is held back when launch() has to attach the configuration first *)
+Lemma progress_success cf m s c p t a pre hd :
+  Rel cf m s -> NoDup (waiters m) -> notified m = None ->
+  (p =? 100) = true -> delivered s c = true -> full_bootstrap s c = true ->
+  ((t = TNone /\ s_timer s = false) \/ t = TCleared) -> resumed cf m a pre hd ->
+  let m1 := {| attempted := attempted m; collected := collected m; npend := npend m; conns := conns m; timer := t;
+               notified := Some ROk; waiters := []; did_timeout := did_timeout m; exited := exited m; gone := gone m;
+               catt := a |} in
+  let es := (EProgress p :: pre ++ map (fun w => EFired w ROk) (if hd then drop0 (waiters m) else waiters m))
+            ++ [EDir (negb (gone m))] in
+  chunk_ok cf s (OProgress c p) es = true /\ Rel cf m1 (spec_step cf s (OProgress c p) es).
+Proof.
+  intros HR ND Nt P100 Dl Fb Ht Hc m1 es.
+  pose proof (L_dec _ _ _ HR) as Dc. rewrite Nt in Dc. cbn in Dc.
+  pose proof (L_wait _ _ _ HR) as Wt. pose proof (L_att _ _ _ HR) as At. pose proof (Rel_nowait _ _ _ HR Nt) as W0.
+  assert (Eff : op_effect cf s (OProgress c p) =
+                {| s_conns := s_conns s; s_npend := s_npend s; s_decided := Some true; s_waiting := [];
+                   s_exited := s_exited s; s_timer := s_timer s; s_gone := s_gone s; s_acc := s_acc s;
+                   s_tried := s_tried s; s_att := s_att s; s_wait0 := memN 0 (waiters m) |}).
+  { cbn [op_effect]. rewrite P100, Fb. cbn [andb]. unfold decide_ok. rewrite Dc, Wt. reflexivity. }
+  (* the three parts of the verdict that do not depend on who fires *)
+  assert (Pre : forall fs, (all_fire (waiters m) true fs
+                            || (negb (s_att (absorb cf (op_effect cf s (OProgress c p)) es) =? 0)
+                                && all_fire (drop0 (waiters m)) true fs)) = true ->
+                fires es = fs -> signals es = [] -> dirs es = [negb (gone m)] -> n_connecting es = O ->
+                chunk_ok cf s (OProgress c p) es = true).
+  { intros fs Hf E1 E2 E3 E4. unfold chunk_ok. rewrite E1, E2, E3, E4, P100, Dl, Dc, Fb, Wt, Hf.
+    rewrite Eff. cbn. rewrite !andb_true_r. dirgoal HR. }
+  destruct Hc as [(-> & -> & ->)|(Ca & M0 & c' & -> & [(A0 & -> & ->)|(A0 & -> & ->)])].
+  - (* launch() returns at once *)
+    split.
+    + apply (Pre (map (fun w => (w, ROk)) (waiters m))).
+      * rewrite (all_fire_self (waiters m) true ROk ND eq_refl). reflexivity.
+      * unfold es. rewrite fires_wrap. cbn [app]. apply fires_fired.
+      * unfold es. rewrite signals_wrap. cbn [app]. apply signals_fired.
+      * unfold es. rewrite dirs_wrap. cbn [app]. rewrite dirs_fired. reflexivity.
+      * unfold es. rewrite nconn_wrap. cbn [app]. apply nconn_fired.
+    + unfold spec_step, es. rewrite Eff, absorb_wrap. cbn [app]. rewrite absorb_fired_all.
+      cbn [s_att]. unfold m1.
+      assert (A' : att_ok (Some ROk) (catt m) (s_att s) false).
+      { unfold att_ok in *. destruct (catt m) as [|n who|]; try (split; [apply At|reflexivity]).
+        destruct At as (A1 & A2 & A3 & A4). repeat split; auto. congruence. }
+      destruct (memN 0 (waiters m)); destruct HR; constructor; cbn; auto; try discriminate;
+        destruct Ht as [[-> Hs]| ->]; try exact Hs; try discriminate.
+  - (* launch() attaches the configuration, which needs no round trip *)
+    split.
+    + apply (Pre (map (fun w => (w, ROk)) (waiters m))).
+      * rewrite (all_fire_self (waiters m) true ROk ND eq_refl). reflexivity.
+      * unfold es. rewrite fires_wrap, fires_app. cbn [fires flat_map app]. apply fires_fired.
+      * unfold es. rewrite signals_wrap, signals_app. cbn [signals flat_map app]. apply signals_fired.
+      * unfold es. rewrite dirs_wrap, dirs_app. cbn [dirs flat_map app]. rewrite dirs_fired. reflexivity.
+      * unfold es. rewrite nconn_wrap, nconn_app. cbn [n_connecting filter length Nat.add]. apply nconn_fired.
+    + unfold spec_step, es. rewrite Eff, absorb_wrap, absorb_app. cbn [absorb fold_left].
+      rewrite absorb1_attach. fold (absorb cf). rewrite absorb_fired_all. apply N.eqb_eq in A0. rewrite A0.
+      cbn [s_att s_wait0 satt]. unfold m1.
+      destruct (memN 0 (waiters m)); destruct HR; constructor; cbn; auto; try discriminate;
+        destruct Ht as [[-> Hs]| ->]; try exact Hs; try discriminate.
+  - (* launch() attaches the configuration and waits for it: its result is held back *)
+    assert (Ab : absorb cf (op_effect cf s (OProgress c p)) es
+                 = satt (op_effect cf s (OProgress c p)) (c_attach cf) true).
+    { unfold es. rewrite Eff, absorb_wrap, absorb_app. cbn [absorb fold_left].
+      rewrite absorb1_attach. fold (absorb cf). rewrite absorb_fired_all, memN_drop0. rewrite M0. reflexivity. }
+    split.
+    + apply (Pre (map (fun w => (w, ROk)) (drop0 (waiters m)))).
+      * rewrite Ab. cbn [s_att satt]. rewrite A0. cbn [negb andb].
+        rewrite (all_fire_self (drop0 (waiters m)) true ROk (NoDup_filter _ ND) eq_refl). apply orb_true_r.
+      * unfold es. rewrite fires_wrap, fires_app. cbn [fires flat_map app]. apply fires_fired.
+      * unfold es. rewrite signals_wrap, signals_app. cbn [signals flat_map app]. apply signals_fired.
+      * unfold es. rewrite dirs_wrap, dirs_app. cbn [dirs flat_map app]. rewrite dirs_fired. reflexivity.
+      * unfold es. rewrite nconn_wrap, nconn_app. cbn [n_connecting filter length Nat.add]. apply nconn_fired.
+    + unfold spec_step. rewrite Ab, Eff. unfold m1. apply N.eqb_neq in A0.
+      destruct HR; constructor; cbn; auto; try discriminate;
+        destruct Ht as [[-> Hs]| ->]; try exact Hs; try discriminate.
+Qed.
 
 Lemma good_progress cf m s c p : Rel cf m s -> NoDup (waiters m) -> good cf m s (OProgress c p).
 Proof.
@@ -443,42 +635,31 @@ Proof.
       - unfold spec_step. cbn. rewrite P100. cbn. exact HR. }
   destruct (notified m) as [r|] eqn:Nt; cbn in Dc.
   - (* already decided: nothing fires *)
-    assert (Case : forall m1, notify m1 ROk = (m1, []) -> notified m1 = Some r -> gone m1 = gone m -> Rel cf m1 s ->
+    assert (Case : forall m1, notified m1 = Some r -> gone m1 = gone m -> Rel cf m1 s ->
                    chunk_ok cf s (OProgress c p) ((EProgress p :: []) ++ [EDir (negb (gone m1))]) = true /\
                    Rel cf m1 (spec_step cf s (OProgress c p) ((EProgress p :: []) ++ [EDir (negb (gone m1))]))).
-    { intros m1 _ _ Gm HR1. split.
+    { intros m1 _ Gm HR1. split.
       - unfold chunk_ok. cbn. rewrite P100, Dl, Dc. cbn. rewrite !andb_true_r, ?s_gone_if. rewrite Gm. dirgoal HR.
-      - unfold spec_step. cbn. rewrite P100, Fb. cbn. unfold decide. rewrite Dc. cbn. exact HR1. }
+      - unfold spec_step. cbn. rewrite P100, Fb. cbn. unfold decide_ok. rewrite Dc. cbn. exact HR1. }
     destruct (timer m) eqn:Ti.
-    + unfold notify. rewrite Nt. apply Case; auto. unfold notify. rewrite Nt. reflexivity.
-    + unfold notify. cbn [set_timer notified]. rewrite Nt. apply Case; auto.
-      * unfold notify. cbn. rewrite Nt. reflexivity.
-      * destruct HR. constructor; cbn; auto. rewrite Nt. discriminate.
+    + unfold notify_ok. rewrite Nt. apply Case; auto.
+    + unfold notify_ok. cbn [set_timer notified]. rewrite Nt. apply Case; auto.
+      destruct HR. constructor; cbn; auto. rewrite Nt. discriminate.
     + split.
       * unfold chunk_ok. cbn. rewrite P100, Dl, Dc. cbn. rewrite !andb_true_r, ?s_gone_if. dirgoal HR.
-      * unfold spec_step. cbn. rewrite P100, Fb. cbn. unfold decide. rewrite Dc. cbn. exact HR.
-    + unfold notify. rewrite Nt. apply Case; auto. unfold notify. rewrite Nt. reflexivity.
+      * unfold spec_step. cbn. rewrite P100, Fb. cbn. unfold decide_ok. rewrite Dc. cbn. exact HR.
+    + unfold notify_ok. rewrite Nt. apply Case; auto.
   - (* undecided: success *)
-    assert (Case : forall t, (t = TNone /\ s_timer s = false) \/ t = TCleared ->
-       let m1 := {| attempted := attempted m; collected := collected m; npend := npend m; conns := conns m; timer := t;
-                    notified := Some ROk; waiters := []; did_timeout := did_timeout m; exited := exited m; gone := gone m |} in
-       let es := [EProgress p] ++ map (fun w => EFired w ROk) (waiters m) ++ [EDir (negb (gone m))] in
-       chunk_ok cf s (OProgress c p) es = true /\ Rel cf m1 (spec_step cf s (OProgress c p) es)).
-    { intros t Ht m1 es. split.
-      - unfold chunk_ok, es.
-        rewrite !fires_app, !signals_app, !dirs_app, !nconn_app, fires_fired, signals_fired, dirs_fired, nconn_fired.
-        cbn [fires signals dirs flat_map app n_connecting filter length Nat.add].
-        rewrite P100, Dl, Dc, Fb, Wt. cbn [andb].
-        rewrite app_nil_r, (all_fire_self (waiters m) true ROk ND eq_refl).
-        cbn [op_effect]. rewrite P100, Fb. cbn. rewrite !andb_true_r. unfold decide. rewrite Dc. cbn. dirgoal HR.
-      - unfold spec_step, es. cbn [op_effect]. rewrite P100, Fb. cbn [andb]. unfold decide. rewrite Dc.
-        rewrite !absorb_app, absorb_fired. cbn.
-        destruct HR. unfold m1. constructor; cbn; auto; try discriminate.
-        destruct Ht as [[-> Hs]| ->]; [exact Hs|discriminate]. }
+    pose proof (resumes_cases cf m) as RC.
     destruct (timer m) eqn:Ti.
-    + unfold notify. rewrite Nt. cbv beta iota. rewrite ?Ti. apply (Case TNone). left. auto.
-    + unfold notify. cbn [set_timer notified waiters attempted collected npend conns did_timeout exited gone timer]. rewrite Nt. cbv beta iota.
-      apply (Case TCleared). right. reflexivity.
+    + unfold notify_ok. rewrite Nt.
+      destruct (if memN 0 (waiters m) then launch_resumes cf m else (catt m, [], false)) as [[a pre] hd].
+      rewrite ?Ti.
+      apply (progress_success cf m s c p TNone a pre hd HR ND Nt P100 Dl Fb); [left; auto|exact RC].
+    + unfold notify_ok. cbn [set_timer notified waiters attempted collected npend conns did_timeout exited gone timer catt].
+      rewrite Nt. change (launch_resumes cf (set_timer m TCleared)) with (launch_resumes cf m).
+      destruct (if memN 0 (waiters m) then launch_resumes cf m else (catt m, [], false)) as [[a pre] hd].
+      apply (progress_success cf m s c p TCleared a pre hd HR ND Nt P100 Dl Fb); [right; reflexivity|exact RC].
     + destruct Tm as [_ X]. congruence.
     + congruence.
 Qed.
@@ -501,9 +682,10 @@ Proof.
         cbn [op_effect]. rewrite Tm, Dc'. unfold decide. rewrite Dc'. cbn [s_gone gone].
         destruct (exited m); cbn; rewrite !andb_true_r; dirgoal HR.
       * unfold spec_step. cbn [op_effect]. rewrite Tm. unfold decide. rewrite Dc'. rewrite absorb_app.
-        assert (A : forall s1, absorb s1 (if exited m then [ELoseConn] else [ESignal w_TERM]) = s1) by (intros; destruct (exited m); reflexivity).
+        assert (A : forall s1, absorb cf s1 (if exited m then [ELoseConn] else [ESignal w_TERM]) = s1) by (intros; destruct (exited m); reflexivity).
         rewrite A. cbn. destruct HR. constructor; cbn; auto.
-        split; [reflexivity|discriminate].
+        -- split; [reflexivity|discriminate].
+        -- rewrite Nt in L_att0. exact L_att0.
     + (* undecided: TERM and failure *)
       assert (Ea : exited m = false) by (destruct (exited m); [exfalso; apply Ex; reflexivity|reflexivity]).
       rewrite Ea. unfold notify. cbn [notified waiters]. rewrite ?Nt. cbv beta iota. split.
@@ -512,9 +694,13 @@ Proof.
         rewrite Tm, Dc, Wt. unfold decide. rewrite Dc. cbn [s_gone gone]. rewrite app_nil_r.
         rewrite (all_fire_self (waiters m) false (RFail 1) ND eq_refl). rewrite C_term.
         cbn. rewrite !andb_true_r. dirgoal HR.
-      * unfold spec_step. cbn [op_effect]. rewrite Tm. unfold decide. rewrite Dc. rewrite !absorb_app, absorb_fired. cbn.
+      * unfold spec_step. cbn [op_effect]. rewrite Tm. unfold decide. rewrite Dc.
+        rewrite !absorb_app, absorb_fired by (cbn; apply (Rel_nowait _ _ _ HR Nt)). cbn.
+        pose proof (Rel_nowait _ _ _ HR Nt) as W0.
         destruct HR. constructor; cbn; auto; try discriminate; try congruence.
-        split; [reflexivity|discriminate].
+        -- split; [reflexivity|discriminate].
+        -- unfold att_ok in *. rewrite Nt in L_att0. destruct (catt m) as [|n who|]; auto.
+           destruct L_att0 as (A1 & A2 & A3 & A4). repeat split; auto. intros ->. discriminate (A4 eq_refl).
   - destruct Tm as [Tm NN]. split.
     + unfold chunk_ok. cbn. rewrite Tm. cbn. rewrite !andb_true_r. dirgoal HR.
     + unfold spec_step. cbn. rewrite Tm. cbn. exact HR.
@@ -544,6 +730,7 @@ Proof.
     + unfold spec_step. cbn. unfold decide. rewrite Dc. cbn.
       destruct HR. constructor; cbn; auto; try discriminate;
         try (rewrite L_gone0; destruct (s_gone s), (c_userdir cf); reflexivity);
+        try (rewrite Nt in L_att0; exact L_att0);
         try (destruct (timer m); auto).
   - unfold notify. cbn [notified waiters]. rewrite ?Nt. cbv beta iota. split.
     + unfold chunk_ok. rewrite !fires_app, !signals_app, !dirs_app, !nconn_app, fires_fired, signals_fired, dirs_fired, nconn_fired.
@@ -551,91 +738,269 @@ Proof.
       rewrite Dc, Wt. unfold decide. rewrite Dc. cbn [s_gone gone].
       rewrite ?app_nil_r. rewrite (all_fire_self (waiters m) false (RFail kd) ND eq_refl).
       cbn. rewrite !andb_true_r. eapply Gd. exact Hg.
-    + unfold spec_step. cbn [op_effect]. unfold decide. rewrite Dc. rewrite !absorb_app, absorb_fired. cbn.
+    + unfold spec_step. cbn [op_effect]. unfold decide. rewrite Dc.
+      rewrite !absorb_app, absorb_fired by (cbn; apply (Rel_nowait _ _ _ HR Nt)). cbn.
       destruct HR. constructor; cbn; auto; try discriminate;
         try (rewrite L_gone0; destruct (s_gone s), (c_userdir cf); reflexivity).
-      destruct (timer m); auto; try discriminate;
-        destruct L_timer0; split; try assumption; discriminate.
+      * destruct (timer m); auto; try discriminate;
+          destruct L_timer0; split; try assumption; discriminate.
+      * unfold att_ok in *. rewrite Nt in L_att0. destruct (catt m) as [|n who|]; auto.
+        destruct L_att0 as (A1 & A2 & A3 & A4). repeat split; auto. intros ->. discriminate (A4 eq_refl).
+Qed.
+
+(* ---- an answer to the config attach in flight ---- *)
+Lemma good_attach cf m s ok : Rel cf m s -> good cf m s (OAttach ok).
+Proof.
+  intros HR. unfold good, op_chunk. cbn [step].
+  pose proof (L_gone _ _ _ HR) as Hg. pose proof (L_att _ _ _ HR) as At. unfold att_ok in At.
+  assert (None0 : s_att s = 0 -> s_wait0 s = false ->
+                  chunk_ok cf s (OAttach ok) ([] ++ [EDir (negb (gone m))]) = true /\
+                  Rel cf m (spec_step cf s (OAttach ok) ([] ++ [EDir (negb (gone m))]))).
+  { intros A0 W0. split.
+    - unfold chunk_ok. cbn. rewrite A0, W0. cbn. rewrite !andb_true_r. dirgoal HR.
+    - unfold spec_step. cbn. rewrite A0. cbn. exact HR. }
+  destruct (catt m) as [|n who|] eqn:Ca; try (apply None0; apply At).
+  destruct At as (An & Nz & Wh & Nt).
+  assert (E0 : (s_att s =? 0) = false) by (apply N.eqb_neq; congruence).
+  (* the reference state after the answer *)
+  assert (Eff : op_effect cf s (OAttach ok) =
+                satt s (if ok then N.pred n else 0) (held who && negb (if ok then n =? 1 else true))).
+  { cbn [op_effect]. rewrite E0. unfold att_resolves. rewrite E0, An, Wh. reflexivity. }
+  assert (Ck : forall es r, es = [] \/ (who = None /\ es = [EFired 0 r] /\ res_is ok r = true /\
+                                         (if ok then n =? 1 else true) = true) ->
+               (who = None -> (if ok then n =? 1 else true) = true -> es <> []) ->
+               chunk_ok cf s (OAttach ok) (es ++ [EDir (negb (gone m))]) = true).
+  { intros es r Hes Hne. unfold chunk_ok. unfold att_resolves. rewrite Eff, E0, An, Wh.
+    destruct Hes as [->|(-> & -> & Rr & Rs)].
+    - cbn. destruct who as [c|]; cbn.
+      + rewrite !andb_true_r. dirgoal HR.
+      + destruct (if ok then n =? 1 else true) eqn:Rs.
+        * exfalso. apply Hne; auto.
+        * cbn. rewrite !andb_true_r. dirgoal HR.
+    - cbn. rewrite Rs. cbn. rewrite Rr. cbn. rewrite !andb_true_r. dirgoal HR. }
+  destruct (ok && negb (n =? 1)) eqn:Go.
+  - (* one more round trip to go *)
+    apply andb_true_iff in Go as [-> N1]. apply negb_true_iff in N1.
+    split.
+    + apply (Ck [] ROk); [left; reflexivity|]. intros _ X. congruence.
+    + unfold spec_step. rewrite Eff, N1. cbn [app absorb fold_left absorb1 negb]. rewrite andb_true_r.
+      apply Rel_satt; [exact HR|]. cbn. apply N.eqb_neq in N1. repeat split; auto. lia.
+  - (* the attach Deferred fires *)
+    assert (Rs : (if ok then n =? 1 else true) = true).
+    { destruct ok; [|reflexivity]. cbn in Go. apply negb_false_iff in Go. exact Go. }
+    assert (Fin : (if ok then N.pred n else 0) = 0).
+    { destruct ok; [|reflexivity]. apply N.eqb_eq in Rs. rewrite Rs. reflexivity. }
+    assert (Done : forall m', Rel cf m' s -> notified m' = notified m ->
+                   Rel cf (set_catt m' ADone) (satt s (if ok then N.pred n else 0) (held who && negb (if ok then n =? 1 else true)))).
+    { intros m' HR' _. rewrite Rs, Fin, andb_false_r. apply Rel_satt; [exact HR'|]. cbn. auto. }
+    destruct who as [c|].
+    + (* _tor_connected of connection c goes on *)
+      pose proof (conn_both cf m s c HR) as CB.
+      destruct (getc m c) as [k|] eqn:G.
+      2:{ split; [apply (Ck [] ROk); [left; reflexivity|intros X; discriminate X]|].
+          unfold spec_step. rewrite Eff. cbn [app absorb fold_left absorb1]. apply Done; auto. }
+      destruct (nthc s c) as [q|] eqn:Nq; [|contradiction].
+      destruct (k_stage k) eqn:St;
+        try (split; [apply (Ck [] ROk); [left; reflexivity|intros X; discriminate X]|];
+             unfold spec_step; rewrite Eff; cbn [app absorb fold_left absorb1]; apply Done; auto; fail).
+      assert (Cr : crel {| k_stage := SIdle; k_lreg := k_lreg k; k_evon := k_evon k |} q).
+      { unfold crel in *. rewrite St in CB. cbn in *. tauto. }
+      destruct ok.
+      * split; [apply (Ck [] ROk); [left; reflexivity|intros X; discriminate X]|].
+        unfold spec_step. rewrite Eff. cbn [app absorb fold_left absorb1].
+        change (putc m c ?k') with (set_attempted (putc m c k') (attempted m)).
+        apply Done; [|reflexivity]. eapply Rel_putc; [exact HR|exact Nq|exact Cr|left; reflexivity].
+      * split; [apply (Ck [] ROk); [left; reflexivity|intros X; discriminate X]|].
+        unfold spec_step. rewrite Eff. cbn [app absorb fold_left absorb1]. unfold coroutine_failed.
+        apply Done; [|reflexivity]. eapply Rel_putc; [exact HR|exact Nq|exact Cr|right; reflexivity].
+    + (* launch() goes on: its result is delivered *)
+      split.
+      * apply (Ck [EFired 0 (if ok then ROk else RFail 9)] (if ok then ROk else RFail 9)).
+        -- right. repeat split; auto. destruct ok; reflexivity.
+        -- intros _ _. discriminate.
+      * unfold spec_step. rewrite Eff. cbn [app absorb fold_left absorb1 N.eqb].
+        change (Rel cf (set_catt m ADone)
+                  (satt (satt s (if ok then N.pred n else 0) (held None && negb (if ok then n =? 1 else true)))
+                        (if ok then N.pred n else 0) false)).
+        rewrite satt_satt, Fin. apply Rel_satt; [exact HR|]. cbn. auto.
 Qed.
 
 (* ------------------------------------------------------------------------------------------ *)
 (* Part C *)
 
-Lemma step_good cf m s o : Rel cf m s -> NoDup (waiters m) -> good cf m s o.
+Lemma step_good cf m s o : Rel cf m s -> NoDup (waiters m) -> (forall w, o = OWhen w -> w <> 0) -> good cf m s o.
 Proof.
-  intros HR ND. destruct o.
+  intros HR ND W0. destruct o.
   - apply good_out; assumption.
   - apply good_err; assumption.
   - apply good_connok; assumption.
   - apply good_connfail; assumption.
   - apply good_boot; assumption.
   - apply good_ack; assumption.
+  - apply good_attach; assumption.
   - apply good_progress; assumption.
   - apply good_status; assumption.
   - apply good_timeout; assumption.
   - apply good_exit; assumption.
-  - apply good_when; assumption.
+  - apply good_when; [assumption|]. apply W0. reflexivity.
   - apply good_shutdown; assumption.
 Qed.
 
-(* who fires in one operation, and what becomes of the list of waiters *)
-Definition fire_shape (m m' : mst) (o : op) (es : list obs) : Prop :=
-  (fires es = [] /\ (waiters m' = waiters m \/ waiters m' = [] \/ exists w, o = OWhen w /\ waiters m' = waiters m ++ [w]))
-  \/ (exists r, fires es = map (fun w => (w, r)) (waiters m) /\ waiters m' = [] /\ forall w, o <> OWhen w)
-  \/ (exists w r, o = OWhen w /\ fires es = [(w, r)] /\ waiters m' = waiters m).
+(* who is still to be told: the when_connected() Deferreds, and the launch() result while launch() waits
+   for the configuration *)
+Definition held0 (m : mst) : bool := match catt m with ARun _ None => true | _ => false end.
+Definition live (m : mst) : list N := waiters m ++ (if held0 m then [0] else []).
 
-Lemma notify_shape m r m' es o : notify m r = (m', es) -> (forall w, o <> OWhen w) ->
-  forall pre, fires pre = [] -> fire_shape m m' o (pre ++ es).
+(* one step: those told now and those still to be told are distinct, and were to be told before (or
+   are the caller that has just asked) *)
+Definition ids_ok (m m' : mst) (o : op) (es : list obs) : Prop :=
+  NoDup (map fst (fires es) ++ live m') /\
+  forall x, In x (map fst (fires es) ++ live m') -> In x (live m) \/ o = OWhen x.
+
+Lemma same_ids m m' o es : NoDup (live m) -> fires es = [] -> live m' = live m -> ids_ok m m' o es.
+Proof. intros ND E1 E2. unfold ids_ok. rewrite E1, E2. split; cbn; auto. Qed.
+
+Lemma NoDup_app_disj {A} (a b : list A) : NoDup a -> NoDup b -> (forall x, In x a -> ~ In x b) -> NoDup (a ++ b).
 Proof.
-  unfold notify. intros H NW pre Hp. destruct (notified m).
-  - injection H as <- <-. left. rewrite app_nil_r. split; [exact Hp|left; reflexivity].
-  - injection H as <- <-. right. left. exists r. rewrite fires_app, Hp, fires_fired. cbn. auto.
+  induction 1 as [|x a Hx ND IH]; intros Nb D; [exact Nb|]. cbn [app]. constructor.
+  - rewrite in_app_iff. intros [H|H]; [contradiction|]. apply (D x); [left; reflexivity|exact H].
+  - apply IH; [exact Nb|]. intros y Hy. apply D. right. exact Hy.
 Qed.
 
-Lemma step_shape cf m o : let '(m', es) := step cf m o in fire_shape m m' o es.
+Lemma NoDup_insert {A} (a : A) l1 l2 : NoDup (l1 ++ l2) -> ~ In a (l1 ++ l2) -> NoDup (l1 ++ a :: l2).
 Proof.
-  assert (Same : forall es, fires es = [] -> fire_shape m m o es).
-  { intros es H. left. split; [exact H|left; reflexivity]. }
+  induction l1 as [|x l1 IH]; cbn [app]; intros ND NI.
+  - constructor; assumption.
+  - inversion ND as [|? ? Hx ND']; subst. constructor.
+    + rewrite in_app_iff in *. cbn [In]. intros [H|[H|H]]; [apply Hx; auto|subst; apply NI; left; reflexivity|apply Hx; auto].
+    + apply IH; [exact ND'|]. intros H. apply NI. right. exact H.
+Qed.
+
+Lemma NoDup_app_inv {A} (a b : list A) : NoDup (a ++ b) ->
+  NoDup a /\ NoDup b /\ forall x, In x a -> ~ In x b.
+Proof.
+  induction a as [|y a IH]; cbn [app]; intros ND.
+  - repeat split; [constructor|exact ND|intros x []].
+  - inversion ND as [|? ? Hy ND']; subst. destruct (IH ND') as (Na & Nb & D). repeat split.
+    + constructor; [|exact Na]. intros H. apply Hy. apply in_app_iff. auto.
+    + exact Nb.
+    + intros x [<-|Hx]; [|apply D; exact Hx]. intros H. apply Hy. apply in_app_iff. auto.
+Qed.
+
+Lemma fst_fired ws (r : res) : map fst (map (fun w : N => (w, r)) ws) = ws.
+Proof. rewrite map_map. cbn [fst]. apply map_id. Qed.
+
+Lemma notify_ids m r m' es o pre : notify m r = (m', es) -> NoDup (live m) -> fires pre = [] ->
+  ids_ok m m' o (pre ++ es).
+Proof.
+  unfold notify. intros H ND Hp. destruct (notified m).
+  - injection H as <- <-. rewrite app_nil_r. apply same_ids; auto.
+  - injection H as <- <-. unfold ids_ok. rewrite fires_app, Hp, fires_fired. cbn [app]. rewrite fst_fired.
+    change (live _) with (if held0 m then [0] else []) at 1 2.
+    fold (live m). auto.
+Qed.
+
+Lemma In_drop0 x ws : In x (drop0 ws) -> In x ws /\ x <> 0.
+Proof. unfold drop0. rewrite filter_In. intros [H E]. split; [exact H|]. apply negb_true_iff, N.eqb_neq in E. exact E. Qed.
+
+Lemma notify_ok_ids cf m m' es o pre : notify_ok cf m = (m', es) -> NoDup (live m) -> fires pre = [] ->
+  ids_ok m m' o (pre ++ es).
+Proof.
+  unfold notify_ok. intros H ND Hp. destruct (notified m).
+  { injection H as <- <-. rewrite app_nil_r. apply same_ids; auto. }
+  pose proof (resumes_cases cf m) as RC.
+  destruct (if memN 0 (waiters m) then launch_resumes cf m else (catt m, [], false)) as [[a pr] hd].
+  injection H as <- <-. unfold ids_ok. rewrite !fires_app, Hp. cbn [app].
+  destruct RC as [(-> & -> & ->)|(Ca & M0 & c' & -> & [(A0 & -> & ->)|(A0 & -> & ->)])];
+    cbn [fires flat_map app]; rewrite fires_fired, fst_fired.
+  - change (live _) with (if held0 m then [0] else []) at 1 2. fold (live m). auto.
+  - change (live _) with (@nil N ++ []) at 1 2. cbn [app]. rewrite app_nil_r.
+    assert (E : live m = waiters m) by (unfold live, held0; rewrite Ca; apply app_nil_r).
+    rewrite E in *. auto.
+  - change (live _) with (@nil N ++ [0]) at 1 2. cbn [app].
+    assert (E : live m = waiters m) by (unfold live, held0; rewrite Ca; apply app_nil_r).
+    rewrite E in *. split.
+    + replace (drop0 (waiters m) ++ [0]) with (drop0 (waiters m) ++ 0 :: []) by reflexivity.
+      apply NoDup_insert; rewrite app_nil_r; [apply NoDup_filter; exact ND|].
+      intros H. apply In_drop0 in H as [_ H]. apply H. reflexivity.
+    + intros x Hx. left. apply in_app_iff in Hx as [Hx|[<-|[]]].
+      * apply In_drop0 in Hx. apply Hx.
+      * apply memN_In. exact M0.
+Qed.
+
+Lemma step_ids cf m o : NoDup (live m) -> (forall w, o = OWhen w -> ~ In w (live m)) ->
+  let '(m', es) := step cf m o in ids_ok m m' o es.
+Proof.
+  intros ND Fresh.
+  assert (Same : forall m' es, fires es = [] -> live m' = live m -> ids_ok m m' o es).
+  { intros. apply same_ids; auto. }
   destruct o; cbn [step].
   - destruct (attempted m); [apply Same; reflexivity|].
-    destruct (isinfix LISTENER (collected m ++ chunk)); left; split; try reflexivity; left; reflexivity.
+    destruct (isinfix LISTENER (collected m ++ chunk)); apply Same; reflexivity.
   - destruct (c_killerr cf); apply Same; reflexivity.
-  - destruct (npend m); [apply Same; reflexivity|]. left; split; [reflexivity|left; reflexivity].
-  - destruct (npend m); [apply Same; reflexivity|]. left; split; [reflexivity|left; reflexivity].
+  - destruct (npend m); apply Same; reflexivity.
+  - destruct (npend m); apply Same; reflexivity.
   - destruct (getc m c) as [k|]; [|apply Same; reflexivity].
     destruct (k_stage k); try (apply Same; reflexivity).
-    destruct ok; left; split; try reflexivity; left; reflexivity.
+    destruct ok; apply Same; reflexivity.
   - destruct (getc m c) as [k|]; [|apply Same; reflexivity].
-    destruct (k_stage k); try (apply Same; reflexivity);
-      destruct ok; left; split; try reflexivity; left; reflexivity.
-  - destruct (getc m c) as [k|]; [|apply Same; reflexivity].
+    destruct (k_stage k); try (apply Same; reflexivity); destruct ok; try (apply Same; reflexivity).
+    unfold live, held0.
+    destruct (catt m) as [|n who|] eqn:Ca; [destruct (c_attach cf =? 0)| |]; apply Same; try reflexivity;
+      unfold live, held0; cbn; rewrite Ca; reflexivity.
+  - (* OAttach *)
+    destruct (catt m) as [|n who|] eqn:Ca; try (apply Same; reflexivity).
+    destruct (ok && negb (n =? 1)).
+    { apply Same; [reflexivity|]. unfold live, held0. cbn. rewrite Ca. reflexivity. }
+    destruct who as [c|].
+    + assert (L : forall m1, waiters m1 = waiters m -> live (set_catt m1 ADone) = live m).
+      { intros m1 E. unfold live, held0. cbn. rewrite Ca, E. reflexivity. }
+      destruct (getc m c) as [k|]; [|apply Same; [reflexivity|apply L; reflexivity]].
+      destruct (k_stage k); try (apply Same; [reflexivity|apply L; reflexivity]).
+      destruct ok; apply Same; try reflexivity; apply L; reflexivity.
+    + unfold ids_ok. cbn [fires flat_map app map fst].
+      change (live (set_catt m ADone)) with (waiters m ++ []). rewrite app_nil_r.
+      assert (E : live m = waiters m ++ [0]) by (unfold live, held0; rewrite Ca; reflexivity).
+      rewrite E in *. split.
+      * apply NoDup_remove in ND. rewrite app_nil_r in ND. constructor; apply ND.
+      * intros x [<-|Hx]; left; apply in_app_iff; [right; left; reflexivity|left; exact Hx].
+  - (* OProgress *)
+    destruct (getc m c) as [k|]; [|apply Same; reflexivity].
     destruct (k_evon k && k_lreg k); [|apply Same; reflexivity].
     destruct (p =? 100); [|apply Same; reflexivity].
     destruct (timer m) eqn:Ti.
-    + destruct (notify m ROk) as [m1 e1] eqn:Nf.
-      apply (notify_shape m ROk m1 e1 (OProgress c p) Nf) with (pre := [EProgress p]); [discriminate|reflexivity].
-    + destruct (notify (set_timer m TCleared) ROk) as [m1 e1] eqn:Nf.
-      apply (notify_shape (set_timer m TCleared) ROk m1 e1 (OProgress c p) Nf) with (pre := [EProgress p]); [discriminate|reflexivity].
+    + destruct (notify_ok cf m) as [m1 e1] eqn:Nf.
+      apply (notify_ok_ids cf m m1 e1 (OProgress c p) [EProgress p] Nf ND). reflexivity.
+    + destruct (notify_ok cf (set_timer m TCleared)) as [m1 e1] eqn:Nf.
+      apply (notify_ok_ids cf (set_timer m TCleared) m1 e1 (OProgress c p) [EProgress p] Nf ND). reflexivity.
     + apply Same; reflexivity.
-    + destruct (notify m ROk) as [m1 e1] eqn:Nf.
-      apply (notify_shape m ROk m1 e1 (OProgress c p) Nf) with (pre := [EProgress p]); [discriminate|reflexivity].
+    + destruct (notify_ok cf m) as [m1 e1] eqn:Nf.
+      apply (notify_ok_ids cf m m1 e1 (OProgress c p) [EProgress p] Nf ND). reflexivity.
   - apply Same; reflexivity.
   - destruct (timer m); try (apply Same; reflexivity).
     match goal with |- context[notify ?m1 ?r] => destruct (notify m1 r) as [m2 e2] eqn:Nf;
-      pose proof (notify_shape m1 r m2 e2 OTimeout Nf) as NS end.
-    apply (NS ltac:(discriminate) (if exited m then [ELoseConn] else [ESignal w_TERM])).
-    destruct (exited m); reflexivity.
+      pose proof (notify_ids m1 r m2 e2 OTimeout (if exited m then [ELoseConn] else [ESignal w_TERM]) Nf ND) as NS end.
+    apply NS. destruct (exited m); reflexivity.
   - match goal with |- context[notify ?m1 ?r] => destruct (notify m1 r) as [m2 e2] eqn:Nf;
-      pose proof (notify_shape m1 r m2 e2 (OExit x) Nf) as NS end.
-    apply (NS ltac:(discriminate) []). reflexivity.
-  - destruct (notified m) as [r|].
-    + right. right. exists w, r. auto.
-    + left. split; [reflexivity|]. right. right. exists w. auto.
-  - left. split; [reflexivity|left; reflexivity].
+      pose proof (notify_ids m1 r m2 e2 (OExit x) [] Nf ND) as NS end.
+    apply NS. reflexivity.
+  - (* OWhen *)
+    pose proof (Fresh w eq_refl) as Fw.
+    destruct (notified m) as [r|].
+    + unfold ids_ok. cbn [fires flat_map app map fst]. split.
+      * constructor; assumption.
+      * intros x [<-|Hx]; auto.
+    + match goal with |- ids_ok _ ?m' _ _ =>
+        assert (E : live m' = (waiters m ++ [w]) ++ (if held0 m then [0] else [])) by reflexivity;
+        unfold ids_ok; rewrite E end.
+      cbn [fires flat_map app map fst]. rewrite <- app_assoc. cbn [app]. split.
+      * apply NoDup_insert; assumption.
+      * intros x Hx. apply in_app_iff in Hx as [Hx|[<-|Hx]]; [left; apply in_app_iff; auto|right; reflexivity|left; apply in_app_iff; auto].
+  - apply Same; reflexivity.
 Qed.
 
 Definition winv (m : mst) (ws : list N) : Prop :=
-  NoDup (waiters m) /\ forall w, In w (waiters m) -> In w ws.
+  NoDup (live m) /\ (forall w, In w (live m) -> In w ws) /\ In 0 ws.
 
 Definition ws_after (o : op) (ws : list N) : list N := match o with OWhen w => w :: ws | _ => ws end.
 
@@ -647,33 +1012,29 @@ Proof.
   intros w' E. injection E as <-. intros A. apply memN_In in A. rewrite A in H1. discriminate.
 Qed.
 
-Lemma NoDup_app_disj {A} (a b : list A) : NoDup a -> NoDup b -> (forall x, In x a -> ~ In x b) -> NoDup (a ++ b).
-Proof.
-  induction 1 as [|x a Hx ND IH]; intros Nb D; [exact Nb|]. cbn [app]. constructor.
-  - rewrite in_app_iff. intros [H|H]; [contradiction|]. apply (D x); [left; reflexivity|exact H].
-  - apply IH; [exact Nb|]. intros y Hy. apply D. right. exact Hy.
-Qed.
+Lemma ws_mono o ws w : In w ws -> In w (ws_after o ws).
+Proof. destruct o; cbn; auto. Qed.
 
-Lemma NoDup_snoc {A} (l : list A) x : NoDup l -> ~ In x l -> NoDup (l ++ [x]).
+Lemma winv_waiters m ws : winv m ws -> NoDup (waiters m).
+Proof. intros [ND _]. unfold live in ND. apply NoDup_app_inv in ND. apply ND. Qed.
+
+Lemma winv_fresh m ws o : winv m ws -> (forall w, o = OWhen w -> ~ In w ws) ->
+  (forall w, o = OWhen w -> ~ In w (live m)) /\ (forall w, o = OWhen w -> w <> 0).
 Proof.
-  intros ND NI. apply NoDup_app_disj; [exact ND|constructor; [intros []|constructor]|].
-  intros y Hy [<-|[]]. contradiction.
+  intros (ND & Sub & Z) Fresh. split.
+  - intros w E H. apply (Fresh w E). auto.
+  - intros w E ->. apply (Fresh 0 E). exact Z.
 Qed.
 
 Lemma winv_step cf m o ws : winv m ws -> (forall w, o = OWhen w -> ~ In w ws) ->
   winv (fst (step cf m o)) (ws_after o ws).
 Proof.
-  intros [ND Sub] Fresh. pose proof (step_shape cf m o) as Sh. destruct (step cf m o) as [m' es]. cbn [fst].
-  assert (Mono : forall w, In w ws -> In w (ws_after o ws)) by (intros w H; destruct o; cbn; auto).
-  unfold winv.
-  destruct Sh as [[_ [E|[E|(w & -> & E)]]]|[(r & _ & E & _)|(w & r & _ & _ & E)]]; rewrite E.
-  - split; [exact ND|]. auto.
-  - split; [constructor|intros ? []].
-  - split.
-    + apply NoDup_snoc; [exact ND|]. intros A. apply (Fresh w eq_refl). auto.
-    + intros x Hx. apply in_app_iff in Hx as [Hx|[<-|[]]]; cbn; auto.
-  - split; [constructor|intros ? []].
-  - split; [exact ND|]. auto.
+  intros WI Fresh. destruct (winv_fresh m ws o WI Fresh) as [Fl _]. destruct WI as (ND & Sub & Z).
+  pose proof (step_ids cf m o ND Fl) as Sh. destruct (step cf m o) as [m' es]. cbn [fst].
+  destruct Sh as [ND' In']. repeat split.
+  - apply NoDup_app_inv in ND'. apply ND'.
+  - intros x Hx. destruct (In' x) as [H| ->]; [apply in_app_iff; auto|apply ws_mono; auto|left; reflexivity].
+  - apply ws_mono. exact Z.
 Qed.
 
 Lemma run_good cf h : forall m s ws ex,
@@ -682,9 +1043,9 @@ Lemma run_good cf h : forall m s ws ex,
 Proof.
   induction h as [|o h IH]; intros m s ws ex HR WI WF; [reflexivity|].
   cbn [run_from oracle_from].
-  pose proof (step_good cf m s o HR (proj1 WI)) as G. unfold good in G.
-  pose proof (winv_step cf m o ws WI) as WS.
-  destruct (wf_cons _ _ _ _ WF) as [(ex' & WF') Fresh]. specialize (WS Fresh).
+  destruct (wf_cons _ _ _ _ WF) as [(ex' & WF') Fresh].
+  pose proof (step_good cf m s o HR (winv_waiters _ _ WI) (proj2 (winv_fresh m ws o WI Fresh))) as G. unfold good in G.
+  pose proof (winv_step cf m o ws WI Fresh) as WS.
   unfold op_chunk in *. destruct (step cf m o) as [m' es]. cbn [fst] in WS. destruct G as [Ck HR'].
   rewrite Ck. cbn [andb]. eapply IH; eauto.
 Qed.
@@ -693,37 +1054,34 @@ Qed.
 Lemma fired_once cf h : forall m ws ex,
   winv m ws -> wf_from ex ws h = true ->
   let ids := map fst (fires (concat (run_from cf m h))) in
-  NoDup ids /\ forall w, In w ids -> In w (waiters m) \/ ~ In w ws.
+  NoDup ids /\ forall w, In w ids -> In w (live m) \/ ~ In w ws.
 Proof.
   induction h as [|o h IH]; intros m ws ex WI WF; cbn zeta.
   - cbn. split; [constructor|intros ? []].
-  - cbn [run_from]. pose proof (step_shape cf m o) as Sh. pose proof (winv_step cf m o ws WI) as WS.
-    destruct (wf_cons _ _ _ _ WF) as [(ex' & WF') Fresh]. specialize (WS Fresh).
+  - cbn [run_from].
+    destruct (wf_cons _ _ _ _ WF) as [(ex' & WF') Fresh].
+    destruct (winv_fresh m ws o WI Fresh) as [Fl _].
+    pose proof (winv_step cf m o ws WI Fresh) as WS.
+    pose proof (step_ids cf m o (proj1 WI) Fl) as Sh.
     unfold op_chunk. destruct (step cf m o) as [m' es]. cbn [fst] in WS.
     destruct (IH m' (ws_after o ws) ex' WS WF') as [NDr Elr].
-    cbn [concat]. rewrite !fires_app, !map_app. cbn [fires flat_map app map].
+    cbn [concat]. rewrite !fires_app, !map_app. cbn [fires flat_map app map]. rewrite app_nil_r.
     set (ids' := map fst (fires (concat (run_from cf m' h)))) in *.
-    destruct WI as [ND Sub].
-    assert (Mono : forall w, In w ws -> In w (ws_after o ws)) by (intros w H; destruct o; cbn; auto).
-    destruct Sh as [[Ef Wm]|[(r & Ef & Wm & NW)|(w0 & r & -> & Ef & Wm)]]; rewrite Ef; cbn [map app]; rewrite ?app_nil_r.
-    + cbn [map app]. split; [exact NDr|]. intros w Hw. destruct (Elr w Hw) as [A|A].
-      * destruct Wm as [E|[E|(w1 & -> & E)]]; rewrite E in A.
-        -- left. exact A.
-        -- destruct A.
-        -- apply in_app_iff in A as [A|[<-|[]]]; [left; exact A|right; apply Fresh; reflexivity].
-      * right. intros B. apply A. auto.
-    + rewrite map_map. cbn [fst]. rewrite map_id.
-      assert (WsSame : ws_after o ws = ws) by (destruct o; try reflexivity; exfalso; eapply NW; reflexivity).
-      rewrite WsSame, Wm in Elr.
-      split.
-      * apply NoDup_app_disj; [exact ND|exact NDr|]. intros x Hx Hx'. destruct (Elr x Hx') as [[]|A]. apply A. auto.
-      * intros w Hw. apply in_app_iff in Hw as [Hw|Hw]; [left; exact Hw|]. destruct (Elr w Hw) as [[]|A]. right. exact A.
-    + cbn [map fst app]. cbn [ws_after] in Elr. rewrite Wm in Elr.
-      assert (NI : ~ In w0 ws) by (apply Fresh; reflexivity).
-      split.
-      * constructor; [|exact NDr]. intros Hx. destruct (Elr w0 Hx) as [A|A]; [apply NI; auto|apply A; left; reflexivity].
-      * intros w [<-|Hw]; [right; exact NI|]. destruct (Elr w Hw) as [A|A]; [left; exact A|].
-        right. intros B. apply A. right. exact B.
+    destruct WI as (ND & Sub & Z). destruct Sh as [ND' In'].
+    assert (Old : forall x, In x (map fst (fires es)) -> In x (live m) \/ (o = OWhen x /\ ~ In x ws)).
+    { intros x Hx. destruct (In' x) as [H|H]; [apply in_app_iff; auto|auto|]. right. split; [exact H|]. apply Fresh. exact H. }
+    split.
+    + destruct (NoDup_app_inv _ _ ND') as (Nf & _ & Dj).
+      apply NoDup_app_disj; [exact Nf|exact NDr|].
+      intros x Hx Hx'. destruct (Elr x Hx') as [A|A].
+      * (* told now and still to be told afterwards *)
+        exact (Dj x Hx A).
+      * apply A. destruct (Old x Hx) as [H|[-> _]]; [apply ws_mono; auto|left; reflexivity].
+    + intros w Hw. apply in_app_iff in Hw as [Hw|Hw].
+      * destruct (Old w Hw) as [H|[_ H]]; auto.
+      * destruct (Elr w Hw) as [A|A].
+        -- destruct (In' w) as [H|H]; [apply in_app_iff; auto|auto|]. right. apply Fresh. exact H.
+        -- right. intros B. apply A. apply ws_mono. exact B.
 Qed.
 
 (* the main theorem: on every physically possible history the model's trace satisfies the oracle *)
@@ -731,7 +1089,7 @@ Lemma model_satisfies_oracle cf h : wf h = true -> oracle cf h (run cf h) = true
 Proof.
   intros WF. unfold oracle, run, wf in *.
   assert (WI : winv (m0 cf) [0]).
-  { split; cbn; [constructor; [intros []|constructor]|auto]. }
+  { repeat split; cbn; [constructor; [intros []|constructor]|auto|auto]. }
   rewrite (run_good cf h (m0 cf) (s0 cf) [0] false (Rel_init cf) WI WF).
   cbn [chunk_eqb list_eqb obs_eqb Bool.eqb andb].
   cbn [concat]. rewrite fires_app. cbn [fires flat_map app].
@@ -742,41 +1100,83 @@ Lemma fires_at_most_once cf h : wf h = true -> NoDup (map fst (fires (concat (ru
 Proof.
   intros WF. unfold run, wf in *. cbn [concat]. rewrite fires_app. cbn [fires flat_map app].
   assert (WI : winv (m0 cf) [0]).
-  { split; cbn; [constructor; [intros []|constructor]|auto]. }
+  { repeat split; cbn; [constructor; [intros []|constructor]|auto|auto]. }
   destruct (fired_once cf h (m0 cf) [0] false WI WF) as [ND _]. exact ND.
 Qed.
 
 (* ---- the data directory ---- *)
 Definition exec (cf : cfg) (m : mst) (h : list op) : mst := fold_left (fun s o => fst (step cf s o)) h m.
 
-Lemma gone_step cf m o : gone (fst (step cf m o)) = gone m \/ gone (fst (step cf m o)) = gone m || negb (c_userdir cf).
+Definition no_end (o : op) : bool := match o with OExit _ | OShutdown => false | _ => true end.
+
+Lemma notify_ok_gone cf m : gone (fst (notify_ok cf m)) = gone m.
 Proof.
-  destruct o; cbn [step];
-    repeat match goal with
-           | |- context[notify ?m1 ?r] => unfold notify; cbn [notified set_timer]
-           | |- context[notified m] => destruct (notified m)
-           | |- context[match ?x with _ => _ end] => destruct x
-           end; cbn; auto.
+  unfold notify_ok. destruct (notified m); [reflexivity|].
+  destruct (if memN 0 (waiters m) then launch_resumes cf m else (catt m, [], false)) as [[a pre] hd]. reflexivity.
 Qed.
 
+Lemma notify_ok_nodir cf m b : ~ In (EDir b) (snd (notify_ok cf m)).
+Proof.
+  unfold notify_ok. destruct (notified m); [intros []|].
+  pose proof (resumes_cases cf m) as RC.
+  destruct (if memN 0 (waiters m) then launch_resumes cf m else (catt m, [], false)) as [[a pre] hd]. cbn [snd].
+  rewrite in_app_iff, in_map_iff. intros [H|(w & H & _)]; [|discriminate H].
+  destruct RC as [(_ & -> & _)|(_ & _ & c' & -> & _)]; [destruct H|destruct H as [H|[]]; discriminate H].
+Qed.
+
+(* the directory goes exactly at the process's end and at reactor shutdown (if launch() made it) *)
+Lemma gone_step_exact cf m o :
+  gone (fst (step cf m o)) = if no_end o then gone m else gone m || negb (c_userdir cf).
+Proof.
+  destruct o; cbn [step no_end].
+  8:{ (* OProgress *)
+      destruct (getc m c) as [k|]; [|reflexivity].
+      destruct (k_evon k && k_lreg k); [|reflexivity].
+      destruct (p =? 100); [|reflexivity].
+      destruct (timer m); try reflexivity;
+        match goal with |- context[notify_ok ?c1 ?m1] =>
+          pose proof (notify_ok_gone c1 m1) as G; destruct (notify_ok c1 m1) as [m2 e2] end; exact G. }
+  all: repeat match goal with
+           | |- context[notify ?m1 ?r] => unfold notify; cbn [notified set_timer]
+           | |- context[notified ?mm] => destruct (notified mm)
+           | |- context[match ?x with _ => _ end] => destruct x
+           end; reflexivity.
+Qed.
+
+Lemma gone_step cf m o : gone (fst (step cf m o)) = gone m \/ gone (fst (step cf m o)) = gone m || negb (c_userdir cf).
+Proof. rewrite gone_step_exact. destruct (no_end o); auto. Qed.
+
 Lemma gone_exit cf m x : gone (fst (step cf m (OExit x))) = gone m || negb (c_userdir cf).
-Proof. cbn [step]. unfold notify. cbn [notified]. destruct (notified m); reflexivity. Qed.
+Proof. apply gone_step_exact. Qed.
+
+Lemma step_nodir cf m o b : ~ In (EDir b) (snd (step cf m o)).
+Proof.
+  destruct o; cbn [step].
+  8:{ (* OProgress *)
+      destruct (getc m c) as [k|]; [|intros []].
+      destruct (k_evon k && k_lreg k); [|intros []].
+      destruct (p =? 100); [|intros [H|[]]; discriminate H].
+      destruct (timer m); try (intros [H|[H|[]]]; discriminate H);
+        match goal with |- context[notify_ok ?c1 ?m1] =>
+          pose proof (notify_ok_nodir c1 m1 b) as G; destruct (notify_ok c1 m1) as [m2 e2] end;
+        cbn [snd] in *; (intros [H|H]; [discriminate H|exact (G H)]). }
+  all: repeat match goal with
+           | |- context[notify ?m1 ?r] => unfold notify; cbn [notified set_timer]
+           | |- context[notified ?mm] => destruct (notified mm)
+           | |- context[match ?x with _ => _ end] => destruct x
+           end; cbn; rewrite ?in_app_iff, ?in_map_iff; cbn;
+       intuition (try discriminate); repeat match goal with H : exists _, _ |- _ => destruct H as (? & ? & ?) end; try discriminate.
+Qed.
 
 Lemma dirs_in_run cf h : forall m b, In (EDir b) (concat (run_from cf m h)) ->
   exists h1 o h2, h = h1 ++ o :: h2 /\ b = negb (gone (exec cf m (h1 ++ [o]))).
 Proof.
   induction h as [|o h IH]; intros m b H; [destruct H|].
-  cbn [run_from] in H. unfold op_chunk in H. destruct (step cf m o) as [m' es] eqn:St.
+  cbn [run_from] in H. unfold op_chunk in H. pose proof (step_nodir cf m o b) as ND.
+  destruct (step cf m o) as [m' es] eqn:St.
   cbn [concat] in H. apply in_app_iff in H as [H|H].
   - apply in_app_iff in H as [H|[H|[]]].
-    + exfalso. revert H. clear IH. pose proof St as St'.
-      destruct o; cbn [step] in St;
-        repeat match type of St with
-               | context[notify ?m1 ?r] => unfold notify in St; cbn [notified set_timer] in St
-               | context[notified m] => destruct (notified m)
-               | context[match ?x with _ => _ end] => destruct x
-               end; injection St as <- <-; cbn; rewrite ?in_app_iff, ?in_map_iff; cbn;
-          intuition (try discriminate); repeat match goal with H : exists _, _ |- _ => destruct H as (? & ? & ?) end; try discriminate.
+    + exfalso. exact (ND H).
     + injection H as <-. exists [], o, h. split; [reflexivity|]. unfold exec. cbn. rewrite St. reflexivity.
   - destruct (IH m' b H) as (h1 & o' & h2 & -> & E). exists (o :: h1), o', h2. split; [reflexivity|].
     rewrite E. unfold exec. cbn [app fold_left]. rewrite St. reflexivity.
@@ -814,8 +1214,6 @@ Proof.
   - unfold exec at 1. cbn [app fold_left]. apply gone_mono. rewrite gone_exit, U. apply orb_true_r.
 Qed.
 
-Definition no_end (o : op) : bool := match o with OExit _ | OShutdown => false | _ => true end.
-
 Lemma temp_dir_kept cf h b : forallb no_end h = true ->
   In (EDir b) (concat (run cf h)) -> b = true.
 Proof.
@@ -827,13 +1225,7 @@ Proof.
     apply andb_true_iff in B as [B _]. rewrite forallb_app, A. cbn. rewrite B. reflexivity. }
   clear E H. generalize (m0 cf), (eq_refl : gone (m0 cf) = false). revert NE1. generalize (h1 ++ [o]).
   induction l as [|o' l IH]; intros NE' m G; [exact G|]. cbn [forallb] in NE'. apply andb_true_iff in NE' as [A B].
-  unfold exec. cbn [fold_left]. apply (IH B).
-  destruct o'; try discriminate A; cbn [step];
-    repeat match goal with
-           | |- context[notify ?m1 ?r] => unfold notify; cbn [notified set_timer]
-           | |- context[notified m] => destruct (notified m)
-           | |- context[match ?x with _ => _ end] => destruct x
-           end; cbn; auto.
+  unfold exec. cbn [fold_left]. apply (IH B). rewrite gone_step_exact, A. exact G.
 Qed.
 
 (* a success in the model's trace has a full bootstrap behind it (C19Sound applied to the model) *)
